@@ -17,11 +17,13 @@
    (the hypothesis is automatic when the save succeeds), save_names_count and
    save_names (old statements, still true, now corollaries),
    save_duplicate_repaired (replaces save_duplicate_refuted, which is false
-   after the fix), save_shared_header_example; splitlines_join (its hypothesis
-   s <> [] is not used), splitlines_trailing_newline_lost, splitlines_empty,
+   after the fix), save_shared_header_example; split_nl_join (only hypothesis:
+   no carriage return), split_nl_nonempty, split_nl_empty,
+   split_nl_trailing_newline_kept (replaces splitlines_trailing_newline_lost,
+   the former finding D19), split_nl_cr_becomes_lf,
    replace_node_hit, replace_node_frame, replace_root_frame, interleave_text,
-   replace_text_commutes, splitlines_join_trailing_lost /
-   splitlines_join_trailing, replace_root_frame_kids / replace_all_frame,
+   replace_text_commutes (only side condition: no carriage return in the
+   result), replace_root_frame_kids / replace_all_frame,
    replace_text_general. *)
 From Coq Require Import List NArith ZArith Bool Arith Lia Permutation.
 From Coq Require String.
@@ -728,100 +730,58 @@ Qed.
 (* S4. search and replace on one text node                              *)
 (* ================================================================== *)
 Definition lf : N := 10.
-Definition only_lf (s : str) : Prop := forall c, In c s -> is_linebreak c = true -> c = lf.
+Definition no_cr (s : str) : Prop := ~ In 13 s.
 
-Lemma splitlines_empty : splitlines [] = [].
-Proof. reflexivity. Qed.
-
-Lemma splitlines_trailing_newline_lost : join [lf] (splitlines [120; 10]) = [120].
-Proof. vm_compute. reflexivity. Qed.
-
-Lemma only_lf_tail : forall c s, only_lf (c :: s) -> only_lf s.
-Proof. intros c s H x Hx. apply H. right; auto. Qed.
-
-Lemma splitlines_go_acc_nonempty : forall s acc,
-  acc <> [] -> splitlines_go s acc false <> [].
-Proof.
-  induction s as [|c s IH]; intros acc Ha; simpl.
-  - destruct acc; [congruence|discriminate].
-  - destruct (is_linebreak c); [discriminate|]. apply IH. discriminate.
-Qed.
-
-Lemma splitlines_go_nonempty : forall s acc, s <> [] -> splitlines_go s acc false <> [].
-Proof.
-  intros [|c s] acc Hs; [congruence|]. simpl.
-  destruct (is_linebreak c); [discriminate|]. apply splitlines_go_acc_nonempty. discriminate.
-Qed.
+Lemma no_cr_tail : forall c s, no_cr (c :: s) -> no_cr s.
+Proof. intros c s H Hi. apply H. right; exact Hi. Qed.
 
 Lemma join_cons_nonempty : forall sep x (l : list str),
   l <> [] -> join sep (x :: l) = x ++ sep ++ join sep l.
 Proof. intros sep x [|y r] H; [congruence|reflexivity]. Qed.
 
-Lemma last_cons_nonempty : forall (c : N) s d, s <> [] -> last (c :: s) d = last s d.
-Proof. intros c [|y r] d H; [congruence|reflexivity]. Qed.
-
-Lemma splitlines_go_join : forall s acc,
-  only_lf s -> (s = [] \/ last s 0 <> lf) ->
-  join [lf] (splitlines_go s acc false) = rev acc ++ s.
+(* re.split never returns the empty list *)
+Lemma split_nl_go_nonempty : forall s acc b, split_nl_go s acc b <> [].
 Proof.
-  induction s as [|c s IH]; intros acc Ho Hl.
-  - simpl. rewrite app_nil_r. destruct acc as [|x acc]; reflexivity.
-  - destruct Hl as [Hl|Hl]; [discriminate|].
-    simpl. destruct (is_linebreak c) eqn:Hb.
-    + assert (c = lf) by (apply Ho; [left; reflexivity|exact Hb]). subst c.
-      assert (Hs : s <> []) by (intros ->; apply Hl; reflexivity).
-      rewrite last_cons_nonempty in Hl by exact Hs.
-      change (N.eqb lf 13) with false.
-      rewrite join_cons_nonempty by (apply splitlines_go_nonempty; exact Hs).
-      rewrite (IH [] (only_lf_tail _ _ Ho) (or_intror Hl)). reflexivity.
-    + rewrite (IH (c :: acc) (only_lf_tail _ _ Ho)).
-      * simpl. rewrite <- app_assoc. reflexivity.
-      * destruct s as [|y r]; [left; reflexivity|right]. exact Hl.
+  induction s as [|c s IH]; intros acc b; simpl; [discriminate|].
+  destruct (b && N.eqb c 10); [apply IH|].
+  destruct (N.eqb c 10 || N.eqb c 13); [discriminate|apply IH].
 Qed.
 
-Lemma splitlines_join : forall s,
-  only_lf s -> s <> [] -> last s 0 <> lf -> join [lf] (splitlines s) = s.
-Proof.
-  intros s Ho _ Hl. unfold splitlines. rewrite splitlines_go_join; auto.
-Qed.
+Lemma split_nl_nonempty : forall s, split_nl s <> [].
+Proof. intro s. apply split_nl_go_nonempty. Qed.
 
-(* the general form of D19: a single trailing "\n" is dropped *)
-Lemma splitlines_go_join_trailing : forall s acc,
-  only_lf s -> (s = [] \/ last s 0 <> lf) ->
-  join [lf] (splitlines_go (s ++ [lf]) acc false) = rev acc ++ s.
+Lemma split_nl_empty : split_nl [] = [[]].
+Proof. reflexivity. Qed.
+
+Lemma split_nl_go_join : forall s acc,
+  no_cr s -> join [lf] (split_nl_go s acc false) = rev acc ++ s.
 Proof.
-  induction s as [|c s IH]; intros acc Ho Hl.
+  induction s as [|c s IH]; intros acc Hn.
   - simpl. rewrite app_nil_r. reflexivity.
-  - destruct Hl as [Hl|Hl]; [discriminate|].
-    simpl. destruct (is_linebreak c) eqn:Hb.
-    + assert (c = lf) by (apply Ho; [left; reflexivity|exact Hb]). subst c.
-      assert (Hs : s <> []) by (intros ->; apply Hl; reflexivity).
-      rewrite last_cons_nonempty in Hl by exact Hs.
-      change (N.eqb lf 13) with false.
-      rewrite join_cons_nonempty
-        by (apply splitlines_go_nonempty; destruct s; [congruence|discriminate]).
-      rewrite (IH [] (only_lf_tail _ _ Ho) (or_intror Hl)). reflexivity.
-    + rewrite (IH (c :: acc) (only_lf_tail _ _ Ho)).
-      * simpl. rewrite <- app_assoc. reflexivity.
-      * destruct s as [|y r]; [left; reflexivity|right]. exact Hl.
+  - cbn [split_nl_go andb]. destruct (N.eqb c 10) eqn:E10.
+    + apply N.eqb_eq in E10. subst c. cbn [orb].
+      change (N.eqb 10 13) with false.
+      rewrite join_cons_nonempty by apply split_nl_go_nonempty.
+      rewrite (IH [] (no_cr_tail _ _ Hn)). reflexivity.
+    + destruct (N.eqb c 13) eqn:E13.
+      * apply N.eqb_eq in E13. subst c. exfalso. apply Hn. left; reflexivity.
+      * cbn [orb]. rewrite (IH (c :: acc) (no_cr_tail _ _ Hn)).
+        cbn [rev]. rewrite <- app_assoc. reflexivity.
 Qed.
 
-Lemma splitlines_join_trailing_lost : forall s,
-  only_lf s -> (s = [] \/ last s 0 <> lf) ->
-  join [lf] (splitlines (s ++ [lf])) = s.
-Proof.
-  intros s Ho Hl. unfold splitlines. rewrite splitlines_go_join_trailing; auto.
-Qed.
+(* splitting at line breaks and joining with "\n" is the identity on every
+   text without a carriage return: the empty text and trailing newlines
+   included (formerly finding D19: str.splitlines lost a trailing newline) *)
+Lemma split_nl_join : forall s, no_cr s -> join [lf] (split_nl s) = s.
+Proof. intros s Hn. unfold split_nl. rewrite split_nl_go_join by exact Hn. reflexivity. Qed.
 
-(* so text ending in one "\n" and the same text without it are indistinguishable
-   after splitlines/join *)
-Lemma splitlines_join_trailing : forall s,
-  only_lf s -> (s = [] \/ last s 0 <> lf) ->
-  join [lf] (splitlines (s ++ [lf])) = join [lf] (splitlines s).
-Proof.
-  intros s Ho Hl. rewrite splitlines_join_trailing_lost by auto.
-  unfold splitlines. rewrite splitlines_go_join; auto.
-Qed.
+Lemma split_nl_trailing_newline_kept : join [lf] (split_nl [120; 10]) = [120; 10].
+Proof. vm_compute. reflexivity. Qed.
+
+(* "a\r\nb\rc": \r\n and \r are one line break each *)
+Lemma split_nl_cr_becomes_lf :
+  join [lf] (split_nl [97; 13; 10; 98; 13; 99]) = [97; 10; 98; 10; 99].
+Proof. vm_compute. reflexivity. Qed.
 
 (* ---------- replace_node ---------- *)
 Definition rkids (old new : str) : list anode -> res (list anode) :=
@@ -838,7 +798,7 @@ Lemma replace_node_AE : forall old new e eks,
         if contains old (c :: tx) then
           wuri <- of_opt KeyError (e_wuri e) ;;
           Ok (interleave (br_of e wuri)
-                (map (fun l => AE (with_text e l) eks) (splitlines (replace old new (c :: tx)))))
+                (map (fun l => AE (with_text e l) eks) (split_nl (replace old new (c :: tx)))))
         else eks' <- rkids old new eks ;; Ok [AE e eks']
     | _ => eks' <- rkids old new eks ;; Ok [AE e eks']
     end.
@@ -848,7 +808,7 @@ Lemma replace_node_hit : forall old new e eks c tx wuri,
   e_text e = Some (c :: tx) -> contains old (c :: tx) = true -> e_wuri e = Some wuri ->
   replace_node old new (AE e eks) =
     Ok (interleave (br_of e wuri)
-          (map (fun l => AE (with_text e l) eks) (splitlines (replace old new (c :: tx))))).
+          (map (fun l => AE (with_text e l) eks) (split_nl (replace old new (c :: tx))))).
 Proof.
   intros old new e eks c tx wuri Ht Hc Hw.
   rewrite replace_node_AE, Ht, Hc, Hw. reflexivity.
@@ -939,23 +899,22 @@ Qed.
 Lemma replace_text_commutes : forall old new e eks c tx wuri nodes,
   str_eqb (e_local e) s_br = false -> e_text e = Some (c :: tx) ->
   contains old (c :: tx) = true -> e_wuri e = Some wuri ->
-  only_lf (replace old new (c :: tx)) -> replace old new (c :: tx) <> [] ->
-  last (replace old new (c :: tx)) 0 <> lf ->
+  no_cr (replace old new (c :: tx)) ->
   replace_node old new (AE e eks) = Ok nodes ->
   concat (map node_text nodes) = replace old new (c :: tx).
 Proof.
-  intros old new e eks c tx wuri nodes Hb Ht Hc Hw Ho Hne Hl H.
+  intros old new e eks c tx wuri nodes Hb Ht Hc Hw Hn H.
   rewrite (replace_node_hit _ _ _ _ _ _ _ Ht Hc Hw) in H. inversion H; subst nodes.
   rewrite interleave_text by exact Hb.
-  apply splitlines_join; assumption.
+  apply split_nl_join; exact Hn.
 Qed.
 
-(* without the side conditions: the text is join "\n" (splitlines ...) *)
+(* without the side condition: the text is join "\n" (re.split(\r\n|\r|\n) ...) *)
 Lemma replace_text_general : forall old new e eks c tx wuri nodes,
   str_eqb (e_local e) s_br = false -> e_text e = Some (c :: tx) ->
   contains old (c :: tx) = true -> e_wuri e = Some wuri ->
   replace_node old new (AE e eks) = Ok nodes ->
-  concat (map node_text nodes) = join [lf] (splitlines (replace old new (c :: tx))).
+  concat (map node_text nodes) = join [lf] (split_nl (replace old new (c :: tx))).
 Proof.
   intros old new e eks c tx wuri nodes Hb Ht Hc Hw H.
   rewrite (replace_node_hit _ _ _ _ _ _ _ Ht Hc Hw) in H. inversion H; subst nodes.
@@ -980,11 +939,11 @@ Print Assumptions save_names_count.
 Print Assumptions save_names.
 Print Assumptions save_duplicate_repaired.
 Print Assumptions save_shared_header_example.
-Print Assumptions splitlines_join.
-Print Assumptions splitlines_join_trailing_lost.
-Print Assumptions splitlines_join_trailing.
-Print Assumptions splitlines_trailing_newline_lost.
-Print Assumptions splitlines_empty.
+Print Assumptions split_nl_join.
+Print Assumptions split_nl_nonempty.
+Print Assumptions split_nl_empty.
+Print Assumptions split_nl_trailing_newline_kept.
+Print Assumptions split_nl_cr_becomes_lf.
 Print Assumptions replace_node_hit.
 Print Assumptions replace_node_frame.
 Print Assumptions replace_root_frame_kids.
